@@ -203,6 +203,7 @@ func (w *World) RunTransportWorld() {
 	}
 	stopMon = true
 	w.TearingDown = true
+	w.watchTeardown()
 	w.shutdown = true
 	w.shutdownQ.WakeAll()
 	var err1 error
